@@ -7,12 +7,25 @@ import Driver.Types
 import Driver.Prog
 import Driver.Trans
 import Driver.Misc
+import Driver.Switches
+import Driver.Closed
+import Driver.Check
+import Driver.Mut
+import Driver.Depth
+import Driver.Unify
+import Driver.Inst
+import Driver.Find
+import Driver.TransKotlin
+import Driver.TransJava
+import Driver.TransScala
+import Driver.TransGroovy
 /-! `hephdrv`: one JSON request per line on stdin, one JSON answer per line on stdout. -/
 open Lean Driver
 
 def handlers : List Handler :=
   [Driver.Graph.handle, Driver.Ctx.handle, Driver.Oracle.handle, Driver.Diag.handle,
-   Driver.Types.handle, Driver.Prog.handle, Driver.Trans.handle, Driver.Misc.handle]
+   Driver.Types.handle, Driver.Prog.handle, Driver.Trans.handle, Driver.Misc.handle,
+   Driver.Switches.handle, Driver.Closed.handle, Driver.Check.handle, Driver.Mut.handle, Driver.Depth.handle, Driver.Unify.handle, Driver.Inst.handle, Driver.Find.handle, Driver.TransKotlin.handle, Driver.TransJava.handle, Driver.TransScala.handle, Driver.TransGroovy.handle]
 
 def dispatch (op : String) (j : Json) : Json :=
   let rec go : List Handler → Json
